@@ -67,6 +67,12 @@ TStep(m0, r) ==
                  \o [i \in 1..Len(unkSc) |-> Flag("normalisation names a syscall that is in no architecture's table: " \o unkSc[i])],
                       !.normSyscalls = @ \cup { r.syscalls[i] : i \in 1..Len(r.syscalls) },
                       !.normPlainTypes = IF plain THEN @ \cup { r.record_types[i] : i \in 1..Len(r.record_types) } ELSE @]
+    ELSE IF r.k = "select" THEN
+        \* one event, coalesced at some point of a long, reordered run: the entry it selects (seen as its action)
+        \* is the table's, whatever was coalesced before
+        [m EXCEPT !.flags = IF r.got # r.want
+                            THEN << Flag("an event selects a normalisation other than the table's for its record type / syscall and fields (" \o r.what \o ")") >>
+                            ELSE << >>]
     ELSE IF r.k = "norm_load" THEN
         [m EXCEPT !.flags = IF ~r.ok THEN << Flag("the embedded normalisation file does not load") >> ELSE << >>]
     ELSE IF r.k = "end" THEN
